@@ -15,6 +15,7 @@ import (
 	"github.com/database64128/shadowsocks-go/conn"
 	"github.com/database64128/shadowsocks-go/router"
 	"github.com/database64128/shadowsocks-go/stats"
+	"github.com/database64128/shadowsocks-go/verifhook"
 	"github.com/database64128/shadowsocks-go/zerocopy"
 	"go.uber.org/zap"
 )
@@ -275,6 +276,7 @@ func (s *UDPNATRelay) recvFromServerConnGeneric(ctx context.Context, lnc *udpRel
 			natConnSendCh := make(chan *natQueuedPacket, lnc.sendChannelCapacity)
 			entry.natConnSendCh = natConnSendCh
 			s.table[clientAddrPort] = entry
+			verifhook.At("relay.recv.afterInsert", s, clientAddrPort)
 
 			s.wg.Go(func() {
 				var sendChClean bool
@@ -284,6 +286,7 @@ func (s *UDPNATRelay) recvFromServerConnGeneric(ctx context.Context, lnc *udpRel
 					close(natConnSendCh)
 					delete(s.table, clientAddrPort)
 					s.mu.Unlock()
+					verifhook.At("relay.session.cleanup", s, clientAddrPort)
 
 					if !sendChClean {
 						for queuedPacket := range natConnSendCh {
@@ -355,6 +358,7 @@ func (s *UDPNATRelay) recvFromServerConnGeneric(ctx context.Context, lnc *udpRel
 					return
 				}
 
+				verifhook.At("relay.init.beforeSwap", s, clientAddrPort)
 				oldState := entry.state.Swap(natConn)
 				if oldState != nil {
 					natConn.Close()
@@ -465,6 +469,7 @@ func (s *UDPNATRelay) relayServerConnToNatConnGeneric(ctx context.Context, uplin
 			)
 		}
 
+		verifhook.At("relay.uplink.afterSend", s, uplink.clientAddrPort)
 		err = uplink.natConn.SetReadDeadline(time.Now().Add(uplink.natTimeout))
 		if err != nil {
 			uplink.logger.Error("Failed to set read deadline on natConn",
@@ -474,6 +479,7 @@ func (s *UDPNATRelay) relayServerConnToNatConnGeneric(ctx context.Context, uplin
 				zap.Error(err),
 			)
 		}
+		verifhook.At("relay.uplink.afterRearm", s, uplink.clientAddrPort)
 
 		s.putQueuedPacket(queuedPacket)
 		packetsSent++
@@ -536,6 +542,7 @@ func (s *UDPNATRelay) relayNatConnToServerConnGeneric(downlink natDownlinkGeneri
 			continue
 		}
 
+		verifhook.At("relay.downlink.afterRecv", s, downlink.clientAddrPort)
 		payloadSourceAddrPort, payloadStart, payloadLength, err := downlink.natConnUnpacker.UnpackInPlace(packetBuf, packetSourceAddrPort, headroom.Front, n)
 		if err != nil {
 			downlink.logger.Warn("Failed to unpack packet from natConn",
@@ -614,7 +621,9 @@ func (s *UDPNATRelay) Stop() error {
 
 	// Wait for serverConn receive goroutines to exit,
 	// so there won't be any new sessions added to the table.
+	verifhook.At("relay.stop.afterServerDeadline", s)
 	s.mwg.Wait()
+	verifhook.At("relay.stop.afterWaitRecv", s)
 
 	s.mu.Lock()
 	for clientAddrPort, entry := range s.table {
@@ -634,7 +643,9 @@ func (s *UDPNATRelay) Stop() error {
 
 	// Wait for all relay goroutines to exit before closing serverConn,
 	// so in-flight packets can be written out.
+	verifhook.At("relay.stop.beforeWaitAll", s)
 	s.wg.Wait()
+	verifhook.At("relay.stop.afterWaitAll", s)
 
 	for i := range s.listeners {
 		lnc := &s.listeners[i]
